@@ -74,10 +74,8 @@ int str_table_copy(str_table_t *dst, const str_table_t *src)
 
 	hash_table_foreach(dst->ht, ent) {
 		bucket = alloc_flex(sizeof(*bucket), 1, strlen(ent->key) + 1);
-		if (bucket == NULL) {
-			str_table_cleanup(dst);
-			return SQFS_ERROR_ALLOC;
-		}
+		if (bucket == NULL)
+			goto fail;
 
 		memcpy(bucket, ent->data,
 		       sizeof(*bucket) + strlen(ent->key) + 1);
@@ -89,6 +87,22 @@ int str_table_copy(str_table_t *dst, const str_table_t *src)
 	}
 
 	return 0;
+fail:
+	/* entries that have not been duplicated yet still refer to
+	   the buckets of the source table, those must survive */
+	array = (str_bucket_t **)src->bucket_ptrs.data;
+
+	hash_table_foreach(dst->ht, it) {
+		bucket = it->data;
+
+		if (bucket == array[bucket->index]) {
+			it->data = NULL;
+			it->key = NULL;
+		}
+	}
+
+	str_table_cleanup(dst);
+	return SQFS_ERROR_ALLOC;
 }
 
 void str_table_cleanup(str_table_t *table)
